@@ -480,6 +480,18 @@ def build_handler(prog: dict, rec: Recorder):
                     def deserialize(self, data, serdes_context):
                         raise UserError(f"cannot deserialize the result of {path}")
                 sd_kw = {"serdes": BrokenSerDes(), "item_serdes": ExtendedTypeSerDes()}
+            if node.get("item_serdes") == "wrap":
+                # the caller's own item encoding, distinguishable from the default one: whatever decodes an item must use it
+                import json as _j
+                from aws_durable_execution_sdk_python.serdes import SerDes as _SerDes2
+
+                class WrapSerDes(_SerDes2):
+                    def serialize(self, value, serdes_context):
+                        return _j.dumps({"w": value})
+
+                    def deserialize(self, data, serdes_context):
+                        return _j.loads(data)["w"]
+                sd_kw = {"item_serdes": WrapSerDes()}
             if k == "map":
                 kw = dict(sd_kw)
                 if comp is not None:
@@ -518,6 +530,9 @@ def build_handler(prog: dict, rec: Recorder):
         rec.log("HandlerEnter")
         obs = []
         run_nodes(context, prog["nodes"], "", obs)
+        if prog.get("final_large") == "unicode":
+            # 3.5 M characters: under the response limit counted in characters, 7 MB as UTF-8, 21 MB as \uXXXX escapes
+            return ["\u00e9" * 3_500_000, obs]
         if prog.get("final_large"):
             return ["F" * (6 * 1024 * 1024), obs]
         frl = prog.get("final_raise_large")
